@@ -3,7 +3,7 @@
    date,time,timestamp}.go on every run.  Statements only; proofs are in proofs/Numeric*.v. *)
 From Coq Require Import ZArith List String Bool.
 From GCNP Require Import base.GoInt base.GoNum gen.Numeric_gen model.NumWire proofs.NumericHelpers proofs.NumericMath
-  proofs.NumericSwitches proofs.NumericWire proofs.NumericVarint proofs.NumericFloats.
+  proofs.NumericSwitches proofs.NumericWire proofs.NumericVarint proofs.NumericFloats proofs.NumericTime.
 Import ListNotations.
 Open Scope Z_scope.
 
@@ -123,12 +123,108 @@ Theorem C13_fixed_width_lengths :
 Proof. exact fixed_reads_reject_wrong_length. Qed.
 Print Assumptions C13_fixed_width_lengths.
 
-(* varint bytes (hand model, model/NumWire.v): PARTIAL - every integer of the stated finite range, by kernel computation *)
-Theorem C13_varint_roundtrip_partial :
-  forall n, -70000 <= n <= 70000 ->
-  readBigInt (writeBigInt n) = Some n /\ Forall (fun b => 0 <= b < 256) (writeBigInt n).
-Proof. exact varint_roundtrip_partial. Qed.
-Print Assumptions C13_varint_roundtrip_partial.
+(* varint bytes (hand model model/NumWire.v, compared with the compiled writeBigInt/readBigInt on every run): round trip for
+   EVERY integer, and the bytes are bytes.  Proved by showing the model extensionally equal to model/CqlWire.v's and
+   transporting proofs/CqlVarintProofs.v (minimal two's complement, induction on the byte length). *)
+Theorem C13_varint_roundtrip :
+  forall n : Z, NumWire.readBigInt (NumWire.writeBigInt n) = Some n /\ Forall (fun b => 0 <= b < 256) (NumWire.writeBigInt n).
+Proof. exact varint_roundtrip. Qed.
+Print Assumptions C13_varint_roundtrip.
+
+(* ---- date / time / timestamp.  time.Time is the instant (unix seconds, nanoseconds); layouts (Parse/Format) are oracles and
+   do not occur.  The Convert functions return exactly the floor of the instant in the CQL unit, or fail exactly when that
+   number is not representable; the inverses invert them. *)
+Theorem C13_ConvertTimeToEpochMillis_exact :
+  forall t, time_wf t ->
+  (in64 (epoch_millis t) -> ConvertTimeToEpochMillis t = Ok (epoch_millis t)) /\
+  (~ in64 (epoch_millis t) -> ConvertTimeToEpochMillis t = Err).
+Proof. exact ConvertTimeToEpochMillis_exact. Qed.
+Print Assumptions C13_ConvertTimeToEpochMillis_exact.
+
+Theorem C13_ConvertEpochMillisToTime_exact :
+  forall m, in64 m ->
+  time_wf (ConvertEpochMillisToTime m) /\ epoch_millis (ConvertEpochMillisToTime m) = m /\
+  time_nsec (ConvertEpochMillisToTime m) mod 1000000 = 0.
+Proof. exact ConvertEpochMillisToTime_exact. Qed.
+Print Assumptions C13_ConvertEpochMillisToTime_exact.
+
+Theorem C13_ConvertTimeToEpochDays_exact :
+  forall t, in64 (time_sec t) ->
+  (in_i 32 (epoch_days t) = true -> ConvertTimeToEpochDays t = Ok (epoch_days t)) /\
+  (in_i 32 (epoch_days t) = false -> ConvertTimeToEpochDays t = Err).
+Proof. exact ConvertTimeToEpochDays_exact. Qed.
+Print Assumptions C13_ConvertTimeToEpochDays_exact.
+
+Theorem C13_ConvertEpochDaysToTime_exact :
+  forall d, in_i 32 d = true ->
+  ConvertEpochDaysToTime d = (d * 86400, 0) /\ ConvertTimeToEpochDays (ConvertEpochDaysToTime d) = Ok d.
+Proof. exact ConvertEpochDaysToTime_exact. Qed.
+Print Assumptions C13_ConvertEpochDaysToTime_exact.
+
+Theorem C13_time_of_day_range :
+  (forall d v, ConvertDurationToNanosOfDay d = Ok v <-> v = d /\ 0 <= d <= 86399999999999) /\
+  (forall n v, in64 n -> (ConvertNanosOfDayToDuration n = Ok v <-> v = n /\ 0 <= n <= 86399999999999)).
+Proof. exact (conj ConvertDurationToNanosOfDay_exact ConvertNanosOfDayToDuration_exact). Qed.
+Print Assumptions C13_time_of_day_range.
+
+(* the switches of the three codecs: time-typed values go through the functions above, nil is NULL, and every value that is
+   not of a time / string type is handed unchanged to the integer switch of the same width (C13_to/from_switches_exact apply) *)
+Theorem C13_time_to_switches :
+  forall O layout g,
+  match g with
+  | G_time t | G_ptime (Some t) => convertToInt64Timestamp O g layout = lift (ConvertTimeToEpochMillis t)
+  | G_ptime None | G_nil => convertToInt64Timestamp O g layout = Ok (0, true)
+  | G_string _ | G_pstring _ => True
+  | _ => convertToInt64Timestamp O g layout = convertToInt64 O g
+  end /\
+  match g with
+  | G_time t | G_ptime (Some t) => convertToInt32Date O g layout = lift (ConvertTimeToEpochDays t)
+  | G_ptime None | G_nil => convertToInt32Date O g layout = Ok (0, true)
+  | G_string _ | G_pstring _ => True
+  | _ => convertToInt32Date O g layout = convertToInt32 O g
+  end /\
+  match g with
+  | G_duration d | G_pduration (Some d) => convertToInt64Time O g layout = lift (ConvertDurationToNanosOfDay d)
+  | G_pduration None | G_ptime None | G_nil => convertToInt64Time O g layout = Ok (0, true)
+  | G_time _ | G_ptime _ | G_string _ | G_pstring _ => True
+  | _ => convertToInt64Time O g layout = convertToInt64 O g
+  end.
+Proof.
+  intros O layout g.
+  exact (conj (convertToInt64Timestamp_cases O layout g) (conj (convertToInt32Date_cases O layout g) (convertToInt64Time_cases O layout g))).
+Qed.
+Print Assumptions C13_time_to_switches.
+
+Theorem C13_time_from_switches :
+  forall O layout val wasNull d,
+  match d with
+  | D_ptime false | D_piface false =>
+      wasNull = false -> convertFromInt64Timestamp O val wasNull d layout = Ok (Some (G_time (ConvertEpochMillisToTime val)))
+  | D_ptime true | D_piface true => convertFromInt64Timestamp O val wasNull d layout = Err
+  | D_pstring _ => True
+  | _ => convertFromInt64Timestamp O val wasNull d layout = convertFromInt64 O val wasNull d
+  end /\
+  match d with
+  | D_ptime false | D_piface false =>
+      wasNull = false -> convertFromInt32Date O val wasNull layout d = Ok (Some (G_time (ConvertEpochDaysToTime val)))
+  | D_ptime true | D_piface true => convertFromInt32Date O val wasNull layout d = Err
+  | D_pstring _ => True
+  | _ => convertFromInt32Date O val wasNull layout d = convertFromInt32 O val wasNull d
+  end /\
+  match d with
+  | D_pduration false | D_piface false =>
+      wasNull = false -> convertFromInt64Time O val wasNull d layout =
+                         match ConvertNanosOfDayToDuration val with Ok v => Ok (Some (G_duration v)) | Err => Err end
+  | D_pduration true | D_piface true => convertFromInt64Time O val wasNull d layout = Err
+  | D_ptime _ | D_pstring _ => True
+  | _ => convertFromInt64Time O val wasNull d layout = convertFromInt64 O val wasNull d
+  end.
+Proof.
+  intros O layout val wasNull d.
+  exact (conj (convertFromInt64Timestamp_cases O layout val wasNull d)
+        (conj (convertFromInt32Date_cases O layout val wasNull d) (convertFromInt64Time_cases O layout val wasNull d))).
+Qed.
+Print Assumptions C13_time_from_switches.
 
 (* ---- floats: conversions are oracles with the contracts named as hypotheses; a narrowing / big.Float conversion is
    accepted only when the oracle says it is exact *)
@@ -174,5 +270,16 @@ Example C13_switches_nonvacuous :
 Proof. repeat split; vm_compute; reflexivity. Qed.
 
 Example C13_wire_nonvacuous :
-  writeInt32 (-2) = [255; 255; 255; 254] /\ readInt32 [1; 2; 3] = Err /\ writeBigInt (-129) = [255; 127].
+  writeInt32 (-2) = [255; 255; 255; 254] /\ readInt32 [1; 2; 3] = Err /\ NumWire.writeBigInt (-129) = [255; 127].
 Proof. repeat split; vm_compute; reflexivity. Qed.
+
+Example C13_time_nonvacuous :
+  ConvertTimeToEpochMillis (-1, 999000000) = Ok (-1) /\ ConvertTimeToEpochMillis (-1, 1) = Ok (-1000) /\
+  ConvertTimeToEpochMillis (9223372036854775, 807000000) = Ok 9223372036854775807 /\
+  ConvertTimeToEpochMillis (9223372036854775, 808000000) = Err /\
+  ConvertTimeToEpochMillis (-9223372036854776, 192000000) = Ok (-9223372036854775808) /\
+  ConvertTimeToEpochMillis (-9223372036854776, 191000000) = Err /\
+  ConvertTimeToEpochDays (-1, 0) = Ok (-1) /\ ConvertTimeToEpochDays (185542587187200, 0) = Err /\
+  ConvertTimeToEpochDays (185542587187199, 0) = Ok 2147483647 /\
+  ConvertEpochMillisToTime (-1) = (-1, 999000000) /\ time_wf (-1, 999000000).
+Proof. exact time_examples. Qed.
